@@ -9,7 +9,7 @@ OBL = []
 MODPATH = {
     "ast.rs": "ast", "ast__sim.rs": "ast::sim", "asm.rs": "asm", "asm__encoding.rs": "asm::encoding", "err.rs": "err",
     "parse.rs": "parse", "sim.rs": "sim", "sim__mem.rs": "sim::mem", "sim__frame.rs": "sim::frame", "sim__device.rs": "sim::device",
-    "sim__device__timer.rs": "sim::device::timer", "sim__debug.rs": "sim::debug", "sim__observer.rs": "sim::observer",
+    "sim__device__timer.rs": "sim::device::timer", "sim__device__keyboard.rs": "sim::device::keyboard", "sim__device__display.rs": "sim::device::display", "sim__debug.rs": "sim::debug", "sim__observer.rs": "sim::observer",
 }
 
 
@@ -69,9 +69,9 @@ RS = "std::hash::RandomState::new=fixed keys (hash keys do not affect map semant
 K("K.frame.depth", "sim__frame.rs", "depth_contract", ["C27", "C16"], ["FrameStack::push_frame", "FrameStack::pop_frame", "FrameStack::len", "FrameStack::is_empty"],
   args=UF, stubs=[RS], group="frame")
 K("K.frame.debug_frame", "sim__frame.rs", "debug_frame_no_signature", ["C27"], ["FrameStack::push_frame", "FrameStack::pop_frame", "FrameStack::frames"],
-  kind="bounded", bound="<= 1 frame already on the list; no signature registered", args=UF, stubs=[RS], group="frame")
+  kind="bounded", bound="<= 1 frame already on the list; no signature registered", args=UF, stubs=[RS], group="frame", tier="thorough", exploratory=True, timeout=1800)
 K("K.frame.arguments", "sim__frame.rs", "get_arguments_contract", ["C27"], ["ParameterList::get_arguments"],
-  kind="bounded", bound="<= 2 parameters", args=UF, stubs=[], group="frame")
+  kind="bounded", bound="<= 2 parameters", args=UF, stubs=[], group="frame", tier="thorough", exploratory=True, timeout=1800)
 
 # ------------------------------------------------------------------------------------------------ sim/device.rs
 SLOT = "<SimDevice as ExternalDevice>::{io_read,io_write,poll_interrupt,io_reset}=recording stub: arbitrary result, no access to simulator state (guaranteed by the &mut self signature)"
@@ -81,8 +81,9 @@ K("K.device.null", "sim__device.rs", "null_device_contract", ["C32"], ["NullDevi
 K("K.device.new_wf", "sim__device.rs", "new_handler_wf", ["C32"], ["DeviceHandler::new"], group="dev")
 for h, b in (("add_device_0_ports", "3 devices, 0 ports"), ("add_device_1_port_3", "3 devices, 1 port"), ("add_device_1_port_4", "4 devices, 1 port"), ("add_device_2_ports", "3 devices, 2 ports")):
     K(f"K.device.{h}", "sim__device.rs", h, ["C32"], ["DeviceHandler::add_device", "DeviceHandler::get_dev_id"], kind="bounded", bound=b + "; port table fully symbolic", group="dev")
-K("K.device.remove", "sim__device.rs", "remove_device_contract", ["C32"], ["DeviceHandler::remove_device"], kind="bounded",
-  bound="<= 5 devices; arbitrary owners at two symbolic ports, unowned elsewhere", group="dev")
+for h, b in (("remove_device_a", "ports xFE10 and xFFFF"), ("remove_device_b", "ports xFE00 (KBSR) and xFE06 (DDR)")):
+    K(f"K.device.{h}", "sim__device.rs", h, ["C32"], ["DeviceHandler::remove_device"], kind="bounded",
+      bound="<= 5 devices; arbitrary owners at " + b + ", unowned elsewhere; removed id symbolic", group="dev", timeout=1200)
 K("K.device.set_kbd_display", "sim__device.rs", "set_keyboard_display_contract", ["C32"], ["DeviceHandler::set_keyboard", "DeviceHandler::set_display"], group="dev")
 K("K.device.interrupt_leaf", "sim__device.rs", "interrupt_leaf", ["C10", "C34"], ["Interrupt::vectored", "Interrupt::priority"], group="dev", replay="native")
 K("K.device.poll_arbitration_3", "sim__device.rs", "poll_arbitration_3", ["C10"], ["DeviceHandler::poll_interrupt"], kind="bounded", bound="3 device slots", stubs=[SLOT], group="dev")
@@ -124,15 +125,19 @@ K("K.sim.real_vs_virtual", "sim.rs", "real_vs_virtual_step", ["C12"], STEP_FNS, 
 K("K.sim.entry_then_rti", "sim.rs", "interrupt_entry_then_rti", ["C10"], STEP_FNS, args=UF, timeout=1800, stubs=L2STUBS, assumptions=L2ASSUME, group="etr")
 K("K.sim.reset", "sim.rs", "reset_contract", ["C30"], ["Simulator::reset"], args=UF,
   stubs=["Simulator::new_with_mcr=records its arguments, returns a marked fresh machine", "DeviceHandler::io_reset=counted (K.device.io_reset_all)", RS], group="reset")
+K("K.sim.reset_register_map", "sim.rs", "reset_keeps_register_map", ["C30"], ["Simulator::reset"], kind="bounded", bound="one concrete mapping (PC@xFE10) before the reset; fresh machine has the default map",
+  args=UF, stubs=["Simulator::new_with_mcr=marked fresh machine with the default register map", "DeviceHandler::io_reset=counted", RS], unwindset={"hashbrown": 3}, timeout=2400, tier="thorough", exploratory=True)
 RUNFN = ["Simulator::run_while", "Simulator::run_with_limit", "Simulator::run", "Simulator::step_over", "Simulator::step_out", "Simulator::hit_halt", "Simulator::hit_breakpoint", "Breakpoint::check"]
 STEPSTUB = ["Simulator::step=contract: arbitrary outcome; on Ok the counter may advance by one, depth moves by at most one, PC arbitrary, MCR may be cleared (discharged per step by K.sim.step_*)", RS]
 for h, b in (("run_with_limit_3", "<= 3 loop iterations, no breakpoint"), ("step_over_3", "<= 3 loop iterations"), ("step_out_3", "<= 3 loop iterations"),
              ("run_3", "<= 3 loop iterations"), ("run_with_limit_3_bp", "<= 3 loop iterations, 1 PC breakpoint")):
     K(f"K.sim.{h}", "sim.rs", h, ["C13"], RUNFN, kind="bounded", bound=b, args=UF, stubs=STEPSTUB, group="runloops", timeout=1200)
-for h, b in (("mmap_internal_empty_free", "empty map; address xFE10"), ("mmap_internal_empty_other", "empty map; address xFE10, probe xFE20"), ("mmap_internal_empty_nonio", "empty map; non-I/O address x3000"),
+K("K.sim.mmap_internal_empty_nonio", "sim.rs", "mmap_internal_empty_nonio", ["C32"], ["Simulator::mmap_internal", "Simulator::munmap_internal"], kind="bounded",
+  bound="empty map; non-I/O address x3000 (concrete keys: SipHash of a symbolic key is out of reach); register kind symbolic", args=UF, stubs=[RS], group="mmap", timeout=1200)
+for h, b in (("mmap_internal_empty_free", "empty map; address xFE10"), ("mmap_internal_empty_other", "empty map; address xFE10, probe xFE20"),
              ("mmap_internal_default_free", "default map; free address xFE10, probe xFFFC"), ("mmap_internal_default_taken", "default map; occupied address xFFFC, probe xFFFE")):
-    K(f"K.sim.{h}", "sim.rs", h, ["C32"], ["Simulator::mmap_internal", "Simulator::munmap_internal"], kind="bounded", bound=b + " (concrete keys: SipHash of a symbolic key is out of reach); register kind symbolic",
-      args=UF, stubs=[RS], group="mmap", timeout=1200)
+    K(f"K.sim.{h}", "sim.rs", h, ["C32"], ["Simulator::mmap_internal", "Simulator::munmap_internal"], kind="bounded", bound=b + " (concrete keys); register kind symbolic",
+      args=UF, stubs=[RS], unwindset={"hashbrown": 3}, timeout=2400, tier="quick" if "empty" in h else "thorough", exploratory="default" in h)
 
 # ------------------------------------------------------------------------------------------------ sim/debug.rs, sim/observer.rs, timer
 K("K.debug.comparator", "sim__debug.rs", "comparator_check", ["C13"], ["Comparator::check"], group="dbg", args=UF, replay="native")
@@ -142,6 +147,13 @@ K("K.observer.map", "sim__observer.rs", "observer_map_two_updates", ["C28"], ["A
   kind="bounded", bound="2 updates", group="obs")
 K("K.observer.take", "sim__observer.rs", "observer_take", ["C28"], ["AccessObserver::take_mem_accesses"], kind="bounded", bound="1 update", group="obs")
 K("K.timer.sample_range", "sim__device__timer.rs", "sample_range_new", ["C34"], ["SampleRange::new", "<SampleRange as RangeBounds<u32>>::start_bound/end_bound"], group="timer", replay="native")
+
+for h, b in (("keyboard_0", "empty input buffer"), ("keyboard_1", "1 byte waiting"), ("keyboard_2", "2 bytes waiting"), ("keyboard_locked", "buffer lock held by the caller")):
+    K(f"K.kbd.{h}", "sim__device__keyboard.rs", h, ["C16", "C32"], ["<BufferedKeyboard as ExternalDevice>::io_read/io_write/io_reset/poll_interrupt", "<DevWrapper<K, dyn KeyboardDevice> as ExternalDevice>::*", "BufferedKeyboard::try_input", "<BufferedKeyboard as KeyboardDevice>::*"],
+      kind="bounded", bound=b, group="kbd", timeout=900, assumptions=["single-threaded: lock contention from other threads is C33 (not applicable)", "unsafe transmute in DevWrapper::wrap verified through by CBMC's pointer checks"])
+for h, b in (("display_0", "empty output buffer"), ("display_2", "2 bytes already output"), ("display_locked", "buffer lock held by the caller")):
+    K(f"K.disp.{h}", "sim__device__display.rs", h, ["C16", "C32"], ["<BufferedDisplay as ExternalDevice>::io_read/io_write/io_reset/poll_interrupt", "<DevWrapper<D, dyn DisplayDevice> as ExternalDevice>::*", "BufferedDisplay::try_output", "<BufferedDisplay as DisplayDevice>::*"],
+      kind="bounded", bound=b, group="disp", timeout=900, assumptions=["single-threaded: lock contention from other threads is C33 (not applicable)"])
 
 # ------------------------------------------------------------------------------------------------ parse.rs
 FMT = "alloc::fmt::format=panics (error-message formatting must be unreachable: a checked claim)"
@@ -160,13 +172,15 @@ K("K.asm.numeric_offset", "asm.rs", "numeric_offset_passthrough", ["C01"], ["rep
 K("K.asm.ranges_overlap", "asm.rs", "ranges_overlap_contract", ["C02"], ["ranges_overlap"], group="asm", replay="native")
 K("K.asm.disassemble", "asm.rs", "disassemble_reassemble", ["C07"], ["disassemble_line", "try_disassemble_line", "AsmInstr::into_sim_instr", "SimInstr::encode", "SimInstr::decode"], stubs=[UP, RS], group="asm7", timeout=1200)
 for n in (9, 11):
-    K(f"K.asm.label_offset_{n}", "asm.rs", f"label_offset_{n}", ["C01", "C02", "C26"], ["replace_pc_offset"], kind="bounded",
-      bound="symbol table with one label (one-letter name), query in either letter case", stubs=[RS], group=f"lab{n}", timeout=1800, tier="thorough")
+    for v, b, tier in (("lower", "entry A, query a", "quick" if n == 9 else "thorough"), ("upper", "entry A, query A", "thorough"), ("absent", "entry B, query A/a (label not defined)", "thorough")):
+        K(f"K.asm.label_offset_{n}_{v}", "asm.rs", f"label_offset_{n}_{v}", ["C01", "C02", "C26"], ["replace_pc_offset"], kind="bounded",
+          bound="symbol table with one label (one-letter name): " + b + "; addresses, PC and external flag symbolic", stubs=[RS], timeout=1800, tier=tier)
 for h in ("source_info_0_0", "source_info_3_0", "source_info_3_1", "source_info_6_2", "source_info_8_2"):
     K(f"K.asm.{h}", "asm.rs", h, ["C25"], ["SourceInfo::count_lines", "SourceInfo::raw_line_span", "SourceInfo::get_line", "SourceInfo::get_pos_pair"],
-      kind="bounded", bound="text of %s bytes with %s newlines at symbolic positions" % tuple(h.split("_")[2:]), group="src")
-for h, fn in (("symtab_lookup_label", "SymbolTable::lookup_label"), ("symtab_label_source", "SymbolTable::get_label_source")):
-    K(f"K.asm.{h}", "asm.rs", h, ["C23"], [fn], kind="bounded", bound="one label with a one-letter name; query in either letter case or a different name", stubs=[RS], group=h, timeout=1800)
+      kind="bounded", bound="text of %s bytes with %s newlines at symbolic positions" % tuple(h.split("_")[2:]), group="src", replay="native")
+for v in ("upper", "lower", "other"):
+    K(f"K.asm.symtab_lookup_{v}", "asm.rs", f"symtab_lookup_{v}", ["C23"], ["SymbolTable::lookup_label"], kind="bounded", bound=f"one label named Q; query spelling: {v}", stubs=[RS], timeout=1800)
+    K(f"K.asm.symtab_source_{v}", "asm.rs", f"symtab_source_{v}", ["C23"], ["SymbolTable::get_label_source", "SymbolData::span"], kind="bounded", bound=f"one label named Q; query spelling: {v}", stubs=[RS], timeout=1800)
 K("K.asm.symtab_rev_iter", "asm.rs", "symtab_rev_lookup_and_iter", ["C23"], ["SymbolTable::rev_lookup_label", "SymbolTable::label_iter"], kind="bounded", bound="one label", stubs=[RS], group="symrev", timeout=1800)
 
 # ------------------------------------------------------------------------------------------------ err.rs, asm/encoding.rs
@@ -174,6 +188,7 @@ for h in ("errspan_from_array_0", "errspan_from_array_1", "errspan_from_array_2"
           "errspan_from_vec_0", "errspan_from_vec_1", "errspan_from_vec_2", "errspan_from_vec_3", "errspan_extend_0", "errspan_extend_1", "errspan_extend_2", "errspan_extend_3"):
     K(f"K.err.{h}", "err.rs", h, ["C26"], ["ErrSpan::first", "ErrSpan::iter", "<ErrSpan as From<..>>::from", "<ErrSpan as Extend<Span>>::extend"],
       kind="complete", bound="one list length per obligation (0..=3 spans / 1+0..=3 spans), span contents symbolic", group="err", replay="native", timeout=600)
+K("K.enc.count_digits", "asm__encoding.rs", "count_digits_contract", ["C19"], ["count_digits"], group="enc", replay="native")
 for h in ("split_0", "split_3", "split_8", "take_2_of_1", "take_2_of_5", "take_8_of_8", "take_8_of_7", "take_1_of_0", "map_chunks_3", "map_chunks_2", "sorted_no_dup"):
     K(f"K.enc.{h}", "asm__encoding.rs", h, ["C19"], ["take", "take_slice", "try_split_at", "map_chunks", "assert_sorted_no_dup"], kind="bounded", bound="slices of <= 8 bytes", group="enc")
 
